@@ -68,6 +68,7 @@ func generateFor(W *World, names []string) ([]*FuncVC, []string) {
 			problems = append(problems, err.Error())
 			continue
 		}
+		problems = append(problems, vc.Stale...)
 		vcs = append(vcs, vc)
 	}
 	return vcs, problems
